@@ -83,7 +83,12 @@ package untyped
 //@ func (*API).RegisterOperation
 //@ watch TU = call strings.ToUpper
 //@ requires d != nil
+// (the handler tables of different methods are different maps: established by this very function, which is the only writer)
+//@ spec distinctTables() := forall m1 string, m2 string :: d.operations != nil && m1 != m2 && in(m1, d.operations) && in(m2, d.operations) && mapat(d.operations, m1) != nil ==> mapat(d.operations, m1) != mapat(d.operations, m2)
+//@ requires distinctTables() && (d.operations != nil ==> forall m string :: in(m, d.operations) && mapat(d.operations, m) != nil ==> allocated(mapat(d.operations, m)))
+//@ ensures [C19:tables] distinctTables()
 //@ ensures [C19:operation] calls(TU) == 1 && arg(TU,0,0) == method && d.operations != nil && in(ret(TU,0,0), d.operations) && in(path, d.operations[ret(TU,0,0)]) && d.operations[ret(TU,0,0)][path] == handler
+//@ ensures [C19:keeps] forall m string, q string :: old(d.operations) != nil && old(in(m, d.operations)) && old(mapat(d.operations, m)) != nil && old(in(q, mapat(d.operations, m))) && (m != ret(TU,0,0) || q != path) ==> in(m, d.operations) && in(q, mapat(d.operations, m)) && mapat(mapat(d.operations, m), q) == old(mapat(mapat(d.operations, m), q))
 
 //@ func (*API).OperationHandlerFor
 //@ watch TU = call strings.ToUpper
